@@ -54,6 +54,7 @@ def hostile_pool(canary):
         "9**9**9", "1<<10**9", "'a'*10**9", "int('9'*10**5)", "1e400", "float('nan')", "-1e400", "10**10**10", "2**(2**40)", "(1<<(1<<40))", "9**9**9**9",
         "[0]*10**9", "max(9**9**9, 1)", "abs(-(9**9**9))", "len('a'*10**10)", "1 if 9**9**9 else 2", "f'{9**9**9}'", "str(9**99999)",
         "x.__class__", "globals()", "locals()", "vars()", "dir()", "input()", "breakpoint()", "exit()", "quit()", "help()", "__file__", "__name__",
+        "[1, 0, 1e400]", "[255, -1e999]", "[1, float('nan')]", "[1, 2, 3, 4, 5, 6, 7, 1e400]", "[9**9**9]", "(1, 1e400)", "'HC-SR04' * 10**9",
         "None", "...", "b'bytes'", "1j", "{1: 2}", "{1, 2}", "(1, 2)", "[]", "''", "not x", "x if y else z", "lambda: 0", "await x", "yield", "*a", "**k",
         "a[1:2]", "a.b.c", "a()()", "a < b < c", "a is b", "a in b", "~x", "x @ y", "-x", "+x", "0x10", "0o7", "0b1", "1_000", "1e3", ".5", "5.", "'''t'''", "r'\\n'",
     ]
@@ -71,6 +72,10 @@ TEMPLATES = [
     "lcd.write({H}, {H}, {H})", "lcd.line({H}, {H}, align={H})", "lcd.message({H}, {H})", "lcd.glyph({H}, {H})", "lcd.glyph(0, [1, 2, 3, 4, 5, 6, 7, {H}])", "lcd.progress({H}, {H}, {H}, width={H}, label={H})",
     "lcd.animate({H}, {H}, {H}, speed_ms={H}, loop={H})", "lcd.brightness({H})", "lcd.display({H})", "pin_mode({H}, {H})", "digital_write({H}, {H})", "analog_write({H}, {H})",
     "x = digital_read({H})", "x = analog_read({H})", "target({H})", "target('COM3', upload={H})", "items.append({H})", "items.remove({H})", "x = items[{H}]", "x = len({H})",
+    "pat = {H}\nled.flash_pattern(pat)", "pat = {H}\nled.flash_pattern(pat, {H})", "g = {H}\nlcd.glyph(0, g)", "m = {H}\nus = Ultrasonic(7, 8, sensor=m)",
+    "d = {H}\nsleep(d)", "p = {H}\nled2 = Led(p)", "n = {H}\nfor i in range(n):\n    led.on()", "b = {H}\nled.set_brightness(b)", "t = {H}\nlcd.line(0, t)",
+    "v = {H}\nw = v\nmon.write(w)", "def rec(x):\n    return rec([x])\ny = rec({H})", "def rec2(x):\n    return rec2(x + 0.5)\ny = rec2(1)",
+    "def a1(x):\n    return b1(x)\ndef b1(x):\n    return a1(str(x))\nq = a1({H})", "x = " + " + ".join(["1"] * 3000), "x = " + "(" * 200 + "1" + ")" * 200, "x = " + "-" * 500 + "1",
     "x = abs({H})", "x = max({H}, {H})", "x = int({H})", "x = str({H})", "x = h({H})", "a, b, c = 1, {H}", "mon.write(value={H})", "x = y = {H}",
 ]
 PRELUDE = ("from Reduino.Actuators import Led, RGBLed, Servo, DCMotor, Buzzer\nfrom Reduino.Communication import SerialMonitor\nfrom Reduino.Displays import LCD\n"
